@@ -99,7 +99,7 @@ func (o *OracleC11) AfterCall(n *Node, st *Step) {
 	// to the HIGHEST view the requests it holds support (a request for view w supports every
 	// view up to w).  Stopping lower leaves it holding - in its previous-view table - requests
 	// whose redelivery would move it again, which the redelivery clause excludes.
-	if o.cvPre != nil && n.d != nil && st.Panic == nil && st.PostBI == st.PreBI && !n.d.BlockSent() {
+	if o.cvPre != nil && n.d != nil && st.Panic == nil && st.PostBI == st.PreBI && !n.d.BlockSent() && !n.d.CommitSent() && !n.d.PreCommitSent() {
 		p := st.P
 		idx := int(p.Idx)
 		cv, _ := p.Body.(*ChView)
